@@ -30,6 +30,17 @@ ILL_EXTRA = [
     dict(op="Identity", shape=[1, 2, 3], ish=[1, 2, 3], osh=[1, 2, 3]),
     dict(op="Identity", shape=[2, 3, 2], ish=[2, 3, 2], osh=[2, 3, 2]),
 ]
+# 3-D operands whose shapes repeat a value at another position ([2,3,2]: the length of axis 2 is also the length of axis 0)
+# and differ along one axis only, so they stack along it: index bookkeeping by VALUE instead of by POSITION shows here
+LEAVES3 = [
+    dict(op="Identity", shape=[2, 3, 2], ish=[2, 3, 2], osh=[2, 3, 2]),
+    dict(op="Multiply", ishape=[2, 3, 4], mult={"mshape": [2, 3, 4]}, conj=False, ish=[2, 3, 4], osh=[2, 3, 4]),
+    dict(op="Identity", shape=[3, 2, 4], ish=[3, 2, 4], osh=[3, 2, 4]),
+    dict(op="FFT", shape=[2, 2, 2], axes=[-1], center=True, ish=[2, 2, 2], osh=[2, 2, 2]),
+    dict(op="Multiply", ishape=[2, 3, 3], mult={"mshape": [2, 3, 3]}, conj=True, ish=[2, 3, 3], osh=[2, 3, 3]),
+    dict(op="Identity", shape=[3, 3, 2], ish=[3, 3, 2], osh=[3, 3, 2]),
+    dict(op="Transpose", ishape=[2, 3, 2], axes=[2, 0, 1], ish=[2, 3, 2], osh=[2, 2, 3]),
+]
 SUB5 = [LEAVES[i] for i in (0, 1, 3, 4, 9)]
 SUB3 = [LEAVES[i] for i in (1, 3, 9)]
 
@@ -278,8 +289,9 @@ def ill_typed_pairs(leaves):
             for ax in [None] + list(range(-nd - 1, nd + 1)):
                 cands.append(dict(op="Hstack", axis=ax, kids=[a, b]))
                 cands.append(dict(op="Vstack", axis=ax, kids=[a, b]))
-            for i_ in (None, 0, 1, -1):
-                for o_ in (None, 0, 1, -1):
+            dax = [None] + list(range(-nd, nd))
+            for i_ in dax:
+                for o_ in dax:
                     cands.append(dict(op="Diag", iaxis=i_, oaxis=o_, kids=[a, b]))
             for c in cands:
                 try:
